@@ -4,7 +4,7 @@
 export GOFLAGS=-mod=mod GOPROXY=off GOSUMDB=off GOTOOLCHAIN=local
 wt=$1; name=$2; shift 2
 cd $wt || exit 2
-demo=$(git status --short | grep '^??' | grep '_test.go' | awk '{print $2}' | head -1)
+demo=$(git status --short -uall | grep '^??' | grep '_test.go' | awk '{print $2}' | head -1)
 pat=$(grep -ho 'func Test[A-Za-z0-9_]*' $demo | sed 's/func //' | paste -sd'|')
 pkg=./$(dirname $demo)
 echo "== $name: demo $demo tests /$pat/ in $pkg"
